@@ -62,11 +62,15 @@ struct Config {
     clear_env: bool,
     other_cwd: bool,
     stdin: bool,
+    /// destinations exist already and hold longer, unrelated content
+    prefill: bool,
+    /// log the names passed to getenv (through the shim)
+    env_log: bool,
 }
 
 fn configs(tier: Tier) -> Vec<Config> {
     let mut v = vec![];
-    let base = |name: &str| Config { name: name.to_string(), seed: None, no_aslr: false, env: vec![], clear_env: false, other_cwd: false, stdin: false };
+    let base = |name: &str| Config { name: name.to_string(), seed: None, no_aslr: false, env: vec![], clear_env: false, other_cwd: false, stdin: false, prefill: false, env_log: false };
     for s in 0..tier.pick(4u64, 32u64) {
         v.push(Config { seed: Some(s), ..base(&format!("hash seed {s}")) });
     }
@@ -81,6 +85,7 @@ fn configs(tier: Tier) -> Vec<Config> {
         ..base("odd locale/TZ/HOME/TERM/RUST_*")
     });
     v.push(Config { other_cwd: true, ..base("other working directory") });
+    v.push(Config { prefill: true, seed: Some(0), ..base("destination files exist with longer content, hash seed 0") });
     v.push(Config { stdin: true, seed: Some(1), ..base("grammar on stdin, hash seed 1") });
     v
 }
@@ -91,6 +96,7 @@ struct Outputs {
     dfa: Vec<u8>,
     regex: Vec<u8>,
     asked_randomness: bool,
+    env_names: Vec<String>,
 }
 
 fn run_config(text: &str, shell: &str, cfg: &Config, scratch: &Scratch, shim: &Option<PathBuf>) -> Outputs {
@@ -99,7 +105,16 @@ fn run_config(text: &str, shell: &str, cfg: &Config, scratch: &Scratch, shim: &O
     let (o, d, r) = (scratch.path("out.script"), scratch.path("out.dfa"), scratch.path("out.regex"));
     for p in [&o, &d, &r] {
         let _ = std::fs::remove_file(p);
+        if cfg.prefill {
+            let mut junk = String::from("# left over from an earlier, larger grammar\n");
+            for i in 0..40_000 {
+                junk.push_str(&format!("stale line {i} }} ) ] \" ' ;\n"));
+            }
+            std::fs::write(p, junk).unwrap();
+        }
     }
+    let envlog = scratch.path("env.log");
+    let _ = std::fs::remove_file(&envlog);
     let seedlog = scratch.path("seed.log");
     let _ = std::fs::remove_file(&seedlog);
     let mut args = vec![format!("--{shell}"), o.to_string_lossy().to_string(), "--dfa".into(), d.to_string_lossy().to_string(), "--regex".into(), r.to_string_lossy().to_string()];
@@ -115,6 +130,9 @@ fn run_config(text: &str, shell: &str, cfg: &Config, scratch: &Scratch, shim: &O
         inv.env.push(("LD_PRELOAD".into(), shim.to_string_lossy().to_string()));
         inv.env.push(("CG_SEED".into(), seed.to_string()));
         inv.env.push(("CG_SEED_LOG".into(), seedlog.to_string_lossy().to_string()));
+        if cfg.env_log {
+            inv.env.push(("CG_ENV_LOG".into(), envlog.to_string_lossy().to_string()));
+        }
     }
     let other = scratch.path("elsewhere");
     if cfg.other_cwd {
@@ -132,6 +150,7 @@ fn run_config(text: &str, shell: &str, cfg: &Config, scratch: &Scratch, shim: &O
         dfa: std::fs::read(&d).unwrap_or_default(),
         regex: std::fs::read(&r).unwrap_or_default(),
         asked_randomness: std::fs::metadata(&seedlog).map(|m| m.len() > 0).unwrap_or(false),
+        env_names: std::fs::read_to_string(&envlog).map(|s| s.lines().map(|l| l.to_string()).collect()).unwrap_or_default(),
     }
 }
 
@@ -228,7 +247,7 @@ pub fn run(tier: Tier) -> Report {
                 }
                 if !diffs.is_empty() {
                     rep.violation(
-                        &format!("output-depends-on-{}", if cfg.seed.is_some() && !cfg.no_aslr && !cfg.stdin { "hash-seed" } else { "environment" }),
+                        &format!("output-depends-on-{}", if cfg.prefill { "destination-history" } else if cfg.seed.is_some() && !cfg.no_aslr && !cfg.stdin { "hash-seed" } else { "environment" }),
                         format!("{name} --{sn}: {} differ(s) between [{}] and [{}]", diffs.join(", "), cfgs[0].name, cfg.name),
                         J::obj(vec![("grammar", J::s(text)), ("shell", J::s(*sn)), ("reference_config", J::s(&cfgs[0].name)), ("config", J::s(&cfg.name)), ("differs", J::s(diffs.join(", "))), ("reproduce", J::s(format!("CG_SEED=<n> LD_PRELOAD={} complgen --{sn} OUT --dfa D --regex R FILE  (twice, different n)", shim.as_ref().unwrap().display())))]),
                     );
@@ -237,6 +256,45 @@ pub fn run(tier: Tier) -> Report {
             samples.offer(|| J::obj(vec![("grammar", J::s(name)), ("shell", J::s(*sn)), ("configs", J::i(cfgs.len() as i64)), ("script_bytes", J::i(reference.script.len() as i64))]));
         }
     }
+    // ---- every environment variable the binary consults, one at a time.  The shim logs the
+    // names passed to getenv; each is then set to two values (and unset) and the bytes compared.
+    let mut env_names: BTreeSet<String> = BTreeSet::new();
+    let mut env_runs = 0u64;
+    if shim.is_some() {
+        let probe_texts: Vec<(String, String)> = vec![("hello".into(), "hello --color=(always | never | auto) <PATH> {{{ echo x }}};\n".into()), gs[0].clone()];
+        let logcfg = Config { name: "getenv log, hash seed 0".into(), seed: Some(0), no_aslr: false, env: vec![], clear_env: false, other_cwd: false, stdin: false, prefill: false, env_log: true };
+        for (name, text) in &probe_texts {
+            for (_, sn) in SHELLS {
+                let reference = run_config(text, sn, &logcfg, &scratch, &shim);
+                env_names.extend(reference.env_names.iter().cloned());
+                // an error path consults more (RUST_BACKTRACE, colours): log it too
+                let bad = run_config("cmd (;\n", sn, &logcfg, &scratch, &shim);
+                env_names.extend(bad.env_names.iter().cloned());
+                for var in reference.env_names.iter().cloned().collect::<BTreeSet<String>>() {
+                    if var == "LD_PRELOAD" || var.starts_with("LD_") || var.starts_with("GLIBC_") || var.starts_with("MALLOC_") {
+                        // loader / allocator switches of the C library, not of complgen
+                        continue;
+                    }
+                    for val in ["1", "zz 9/\u{e9}"] {
+                        let cfg = Config { name: format!("{var}={val:?}, hash seed 0"), seed: Some(0), no_aslr: false, env: vec![(var.clone(), val.to_string())], clear_env: false, other_cwd: false, stdin: false, prefill: false, env_log: false };
+                        let out = run_config(text, sn, &cfg, &scratch, &shim);
+                        env_runs += 1;
+                        evals += 1;
+                        distinct.insert(fnv(&format!("{name}{sn}{}", cfg.name)));
+                        if out.status != reference.status || out.script != reference.script || out.dfa != reference.dfa || out.regex != reference.regex {
+                            rep.violation(
+                                "output-depends-on-environment-variable",
+                                format!("{name} --{sn}: the output changes when the environment variable {var} (which the binary reads) is set to {val:?}"),
+                                J::obj(vec![("grammar", J::s(text)), ("shell", J::s(sn)), ("variable", J::s(&var)), ("value", J::s(val)), ("reproduce", J::s(format!("{var}={val:?} complgen --{sn} OUT --dfa D --regex R FILE   # compare with the variable unset")))]),
+                            );
+                        }
+                    }
+                }
+            }
+        }
+    }
+    rep.cov("environment_variables_the_binary_reads", J::arr_s(env_names.iter().cloned()));
+    rep.cov("single_variable_runs", J::i(env_runs as i64));
     // ---- in-process histories: what the process compiled before must not matter
     let exe = std::env::current_exe().unwrap();
     let files: Vec<(String, PathBuf)> = [("wide", wide_grammar(false)), ("wide-reversed", wide_grammar(true)), ("hello", "hello --color=(always | never | auto);\n".to_string()), ("strace", crate::corpus::TEXTS[1].1.to_string())]
@@ -388,7 +446,7 @@ pub fn run(tier: Tier) -> Report {
     rep.cov("in_process_repetitions", J::i(reps as i64));
     rep.cov(
         "rule",
-        J::s("controlled-nondeterminism sweep (exhaustive over the configuration matrix, a sweep of the 2^128 seed space): grammars = two synthetic wide grammars (40 equal-length literals, 8 commands under ||, 7 within-word automata of equal and different shape; second one with every list reversed) + corpus + examples/*.usage; x 4 shells; outputs = script, --dfa file, --regex file; configurations = hash seeds 0..K-1 through an LD_PRELOAD getrandom shim (owning std's RandomState), a replay of seed 0, ASLR off with and without the shim, OS randomness, empty / large / odd environment, other cwd, grammar on stdin. All must equal the seed-0 run byte for byte. In-process histories: every single file, every order of three (thorough: four) grammars and a repetition history are compiled inside one fresh worker process each; every file's three output hashes must be the same in all histories, and equal to a fresh binary's bytes. Eq/Hash agreement: for twin-word, redundant-twin, nested-word families, all trees <= 4 (5) nodes, the corpus and the examples x 4 shells, every pair of regex inputs, pooled within-word regexes and rebuilt within-word automata that compare equal must hash equal under a fixed-key hasher (otherwise interning depends on the seed). In-process repetition on all trees <= 3 (4) nodes, and 600 (20000) repetitions of grammars with twin within-word expressions (each compile uses freshly keyed interning tables). distinct = distinct (grammar, shell, configuration)."),
+        J::s("controlled-nondeterminism sweep (exhaustive over the configuration matrix, a sweep of the 2^128 seed space): grammars = two synthetic wide grammars (40 equal-length literals, 8 commands under ||, 7 within-word automata of equal and different shape; second one with every list reversed) + corpus + examples/*.usage; x 4 shells; outputs = script, --dfa file, --regex file; configurations = hash seeds 0..K-1 through an LD_PRELOAD getrandom shim (owning std's RandomState), a replay of seed 0, ASLR off with and without the shim, OS randomness, empty / large / odd environment, other cwd, grammar on stdin, destination files that exist already with longer content; every environment variable the binary passes to getenv (logged by the shim) set to two values, one variable at a time. All must equal the seed-0 run byte for byte. In-process histories: every single file, every order of three (thorough: four) grammars and a repetition history are compiled inside one fresh worker process each; every file's three output hashes must be the same in all histories, and equal to a fresh binary's bytes. Eq/Hash agreement: for twin-word, redundant-twin, nested-word families, all trees <= 4 (5) nodes, the corpus and the examples x 4 shells, every pair of regex inputs, pooled within-word regexes and rebuilt within-word automata that compare equal must hash equal under a fixed-key hasher (otherwise interning depends on the seed). In-process repetition on all trees <= 3 (4) nodes, and 600 (20000) repetitions of grammars with twin within-word expressions (each compile uses freshly keyed interning tables). distinct = distinct (grammar, shell, configuration)."),
     );
     rep.cov("exhaustive", J::Bool(false));
     rep.cov("samples", J::Arr(samples.items));
